@@ -1,6 +1,9 @@
 import LyModel.Diff.Obs13
 import LyModel.Diff.Exact13
 import LyModel.Diff.Drv
+import LyModel.Diff.MergeSafe
+import LyModel.Diff.K13CanonDefs
+import LyModel.Diff.UserOrdRev
 /-! driver ops of component `diff13` (reverse and merge of diffs, C13): see harness/api_diff13.c for the protocol -/
 namespace LyModel.Diff.Drv13
 open LyModel LyModel.Tree LyModel.Diff.Drv
@@ -12,6 +15,18 @@ def applyFields (S : Schema) (fx : Fixes) (dflt : Bool) (data d want : List DNod
   | .ok r =>
     (if hasDupInst S (heightL r + 1) r then "DupInstances" else dumpTok (stripNpL S r)) ++ " " ++
       obsVerdict S dflt r want
+
+/-! the list core (Diff/UserOrd*.lean) on sequences of instance identities: `0.1.2`, `-` = empty -/
+def parseNats (s : String) : Option (List Nat) :=
+  if s == "-" then some [] else (s.splitOn ".").mapM String.toNat?
+def showAnchor : Option Nat → String
+  | none => "-"
+  | some k => toString k
+def showOp : UO.UOp' → String
+  | .del k o => "d" ++ toString k ++ "@" ++ showAnchor o
+  | .create k a => "c" ++ toString k ++ "@" ++ showAnchor a
+  | .move k a o => "m" ++ toString k ++ "@" ++ showAnchor a ++ "@" ++ showAnchor o
+def showOps (l : List UO.UOp') : String := if l.isEmpty then "-" else ";".intercalate (l.map showOp)
 
 def handle (op : String) (args : List String) : String :=
   match op, args with
@@ -37,6 +52,20 @@ def handle (op : String) (args : List String) : String :=
       match mergeDiff { defaults := mo != "0" } S (diff S dflt A B) (diff S dflt B C) with
       | .error e => "err Merge:" ++ e.name
       | .ok M => "ok " ++ dumpTok (stripNpL S M) ++ " " ++ applyFields S (parseFixes fx) dflt A M C
+  | "hyp3", [dsl, a, b, c, _fx] =>
+    -- model only: the hypotheses of Props/C13Tree.lean merge_apply_partial_tree, evaluated on the triple:
+    -- schemaOK  wfForest(A,B,C)  canonT(A,B,C)  mergeSafe(diff(A,B), diff(B,C))
+    withSchema dsl fun S => withTree S a fun A => withTree S b fun B => withTree S c fun C =>
+      let b := fun (x : Bool) => if x then "1" else "0"
+      "ok " ++ b (K13.schemaOK S) ++ " " ++ b (wfForest S A && wfForest S B && wfForest S C) ++ " " ++
+        b (K13.canonT S A && K13.canonT S B && K13.canonT S C) ++ " " ++
+        b (mergeSafe S (diff S true A B) (diff S true B C))
+  | "uocore", [a, b] =>
+    -- model only: the operations of the list core for one user-ordered (leaf-)list, `UO.diffU'` and its repaired reversal
+    -- `UO.reverseU` (Props/C13RevUO.lean: userord_reverse_apply); the check compares them with libyang's diff nodes
+    match parseNats a, parseNats b with
+    | some x, some y => "ok " ++ showOps (UO.diffU' x y) ++ " " ++ showOps (UO.reverseU (UO.diffU' x y))
+    | _, _ => "err BadArgs"
   | _, _ => "err BadOp"
 
 end LyModel.Diff.Drv13
